@@ -95,13 +95,24 @@ func InitIO() *cbor.IOCbor {
 	return io
 }
 
+// LinkKey builds the n-th link key the way an application handling secrets does:
+// from a scratch buffer that is reused for the next key and wiped afterwards.
 func LinkKey(n int) enc.SharedKey {
-	sum := sha256.Sum256([]byte(fmt.Sprintf("verif-linkkey-%d", n)))
-	k, err := enc.NewSecretbox(sum[:])
-	if err != nil {
-		panic(err)
+	scratch := make([]byte, 32)
+	var keys []enc.SharedKey
+	for i := 1; i <= 2; i++ {
+		sum := sha256.Sum256([]byte(fmt.Sprintf("verif-linkkey-%d", i)))
+		copy(scratch, sum[:])
+		k, err := enc.NewSecretbox(scratch)
+		if err != nil {
+			panic(err)
+		}
+		keys = append(keys, k)
 	}
-	return k
+	for i := range scratch {
+		scratch[i] = 0
+	}
+	return keys[n-1]
 }
 
 // Codec names: "cbor" (default), "link" / "link2" (link-encrypting with key 1 / 2), "pb" (legacy).
